@@ -24,6 +24,8 @@ package interp
 //@   ensures array-and-slice-literals-checked: old(n.typ.cat == arrayT || n.typ.cat == sliceT) ==> called(arrayLitExpr) && lastArg(arrayLitExpr, 1) == old(n.typ) && len(lastArg(arrayLitExpr, 0)) == len(n.child) - skip && forall(k, 0, len(n.child) - skip, lastArg(arrayLitExpr, 0)[k] == n.child[k + skip]) && (lastRes(arrayLitExpr, 0) != nil ==> err != nil)
 //@   ensures map-literals-checked: old(n.typ.cat == mapT) ==> called(mapLitExpr) && lastArg(mapLitExpr, 1) == old(n.typ.key) && lastArg(mapLitExpr, 2) == old(n.typ.val) && len(lastArg(mapLitExpr, 0)) == len(n.child) - skip && forall(k, 0, len(n.child) - skip, lastArg(mapLitExpr, 0)[k] == n.child[k + skip]) && (lastRes(mapLitExpr, 0) != nil ==> err != nil)
 //@   ensures struct-literals-checked: old(n.typ.cat == structT) ==> called(structLitExpr) && lastArg(structLitExpr, 1) == old(n.typ) && len(lastArg(structLitExpr, 0)) == len(n.child) - skip && forall(k, 0, len(n.child) - skip, lastArg(structLitExpr, 0)[k] == n.child[k + skip]) && (lastRes(structLitExpr, 0) != nil ==> err != nil)
+//@   ensures host-struct-literals-checked: old(n.typ.cat == valueT && n.typ.rtype.Kind() == reflect.Struct) ==> called(structBinLitExpr) && lastArg(structBinLitExpr, 1) == old(n.typ.rtype) && len(lastArg(structBinLitExpr, 0)) == len(n.child) - skip && forall(k, 0, len(n.child) - skip, lastArg(structBinLitExpr, 0)[k] == n.child[k + skip]) && (lastRes(structBinLitExpr, 0) != nil ==> err != nil)
+//@   ensures host-map-literals-checked: old(n.typ.cat == valueT && n.typ.rtype.Kind() == reflect.Map) ==> called(mapLitExpr) && len(lastArg(mapLitExpr, 0)) == len(n.child) - skip && forall(k, 0, len(n.child) - skip, lastArg(mapLitExpr, 0)[k] == n.child[k + skip]) && (lastRes(mapLitExpr, 0) != nil ==> err != nil)
 //@   ensures rejected-literal-gets-no-generator: err != nil ==> n.gen == old(n.gen) && n.findex == old(n.findex)
 //@   canary err == nil
 
@@ -180,4 +182,108 @@ package interp
 //@   ensures script-function-call-checked: old(!generic && !bltn && !conv && !isBinCall(n, sc)) ==> err != nil || (called(arguments) && lastArg(arguments, 0) == n && lastArg(arguments, 2) == n.child[0] && len(lastArg(arguments, 1)) == len(n.child) - 1 && forall(k, 1, len(n.child), lastArg(arguments, 1)[k-1] == n.child[k]) && lastArg(arguments, 3) == (n.action == aCallSlice))
 //@   ensures instantiation-errors-are-reported: old(generic) ==> (called(genAST) && lastRes(genAST, 2) != nil ==> err != nil) && (called(genRun) && lastRes(genRun, 0) != nil ==> err != nil)
 //@   ensures rule-error-is-the-node-error: (called(builtin) ==> err == lastRes(builtin, 0)) && (called(conversion) ==> err == lastRes(conversion, 0)) && (called(arguments) ==> err == lastRes(arguments, 0))
+//@   canary err != nil
+
+// Conditions: the condition of every form of `for` and `if` is of boolean type, or the statement is an error.
+//@ trusted func isBool(t) (r)
+//@   pure
+//@ lit Interpreter.cfg case:forStmt2#2 () ()
+//@   props C12
+//@   opt safety = off
+//@   opt opaque-calls = *
+//@   opt opaque-havoc = none
+//@   requires [assume] n != nil && sc != nil && len(n.child) == 2 && forall(k, 0, len(n.child), n.child[k] != nil && n.child[k] != n)
+//@   requires [assume] the-case-guard: n.kind == forStmt2
+//@   requires [assume] no-error-so-far: err == nil
+//@   ensures condition-is-boolean: err == nil ==> isBool(old(n.child[0].typ))
+//@   canary err != nil
+//@ lit Interpreter.cfg case:forStmt3#2 () ()
+//@   props C12
+//@   opt safety = off
+//@   opt opaque-calls = *
+//@   opt opaque-havoc = none
+//@   requires [assume] n != nil && sc != nil && len(n.child) == 3 && forall(k, 0, len(n.child), n.child[k] != nil && n.child[k] != n)
+//@   requires [assume] the-case-guard: n.kind == forStmt3
+//@   requires [assume] no-error-so-far: err == nil
+//@   ensures condition-is-boolean: err == nil ==> isBool(old(n.child[1].typ))
+//@   canary err != nil
+//@ lit Interpreter.cfg case:forStmt5#2 () ()
+//@   props C12
+//@   opt safety = off
+//@   opt opaque-calls = *
+//@   opt opaque-havoc = none
+//@   requires [assume] n != nil && sc != nil && len(n.child) == 3 && forall(k, 0, len(n.child), n.child[k] != nil && n.child[k] != n)
+//@   requires [assume] the-case-guard: n.kind == forStmt5
+//@   requires [assume] no-error-so-far: err == nil
+//@   ensures condition-is-boolean: err == nil ==> isBool(old(n.child[0].typ))
+//@   canary err != nil
+//@ lit Interpreter.cfg case:forStmt7#2 () ()
+//@   props C12
+//@   opt safety = off
+//@   opt opaque-calls = *
+//@   opt opaque-havoc = none
+//@   requires [assume] n != nil && sc != nil && len(n.child) == 4 && forall(k, 0, len(n.child), n.child[k] != nil && n.child[k] != n)
+//@   requires [assume] the-case-guard: n.kind == forStmt7
+//@   requires [assume] no-error-so-far: err == nil
+//@   ensures condition-is-boolean: err == nil ==> isBool(old(n.child[1].typ))
+//@   canary err != nil
+//@ lit Interpreter.cfg case:ifStmt0#2 () ()
+//@   props C12
+//@   opt safety = off
+//@   opt opaque-calls = *
+//@   opt opaque-havoc = none
+//@   requires [assume] n != nil && sc != nil && len(n.child) == 2 && forall(k, 0, len(n.child), n.child[k] != nil && n.child[k] != n)
+//@   requires [assume] the-case-guard: n.kind == ifStmt0
+//@   requires [assume] no-error-so-far: err == nil
+//@   ensures condition-is-boolean: err == nil ==> isBool(old(n.child[0].typ))
+//@   canary err != nil
+//@ lit Interpreter.cfg case:ifStmt1#2 () ()
+//@   props C12
+//@   opt safety = off
+//@   opt opaque-calls = *
+//@   opt opaque-havoc = none
+//@   requires [assume] n != nil && sc != nil && len(n.child) == 3 && forall(k, 0, len(n.child), n.child[k] != nil && n.child[k] != n)
+//@   requires [assume] the-case-guard: n.kind == ifStmt1
+//@   requires [assume] no-error-so-far: err == nil
+//@   ensures condition-is-boolean: err == nil ==> isBool(old(n.child[0].typ))
+//@   canary err != nil
+//@ lit Interpreter.cfg case:ifStmt2#2 () ()
+//@   props C12
+//@   opt safety = off
+//@   opt opaque-calls = *
+//@   opt opaque-havoc = none
+//@   requires [assume] n != nil && sc != nil && len(n.child) == 3 && forall(k, 0, len(n.child), n.child[k] != nil && n.child[k] != n)
+//@   requires [assume] the-case-guard: n.kind == ifStmt2
+//@   requires [assume] no-error-so-far: err == nil
+//@   ensures condition-is-boolean: err == nil ==> isBool(old(n.child[1].typ))
+//@   canary err != nil
+//@ lit Interpreter.cfg case:ifStmt3#2 () ()
+//@   props C12
+//@   opt safety = off
+//@   opt opaque-calls = *
+//@   opt opaque-havoc = none
+//@   requires [assume] n != nil && sc != nil && len(n.child) == 4 && forall(k, 0, len(n.child), n.child[k] != nil && n.child[k] != n)
+//@   requires [assume] the-case-guard: n.kind == ifStmt3
+//@   requires [assume] no-error-so-far: err == nil
+//@   ensures condition-is-boolean: err == nil ==> isBool(old(n.child[1].typ))
+//@   canary err != nil
+
+// Identifiers: a name that is neither a key, a new definition nor a function's own name, that has no type
+// yet and that the scopes do not know — under its own name or as a package of the file — is undefined:
+// an error, and the node gets no symbol.
+//@ trusted func isKey(n) (r)
+//@   pure
+//@ trusted func isNewDefine(n, sc) (r)
+//@   pure
+//@ lit Interpreter.cfg case:identExpr#2 () ()
+//@   props C12
+//@   opt safety = off
+//@   opt opaque-calls = *
+//@   opt opaque-havoc = none
+//@   opt record-calls = lookup
+//@   requires [assume] n != nil && n.anc != nil && sc != nil && len(n.anc.child) >= 2
+//@   requires [assume] the-case-guard: n.kind == identExpr
+//@   requires [assume] no-error-so-far: err == nil
+//@   ensures unknown-name-is-undefined: old(!isKey(n) && !isNewDefine(n, sc) && !(n.anc.kind == funcDecl && n.anc.child[1] == n) && n.typ == nil) && called(lookup) && !lastRes(lookup, 2) ==> err != nil && n.sym == old(n.sym)
+//@   ensures known-name-gets-the-symbol-found: err == nil && called(lookup) && lastRes(lookup, 2) ==> n.sym == lastRes(lookup, 0) && n.level == lastRes(lookup, 1)
 //@   canary err != nil
